@@ -55,6 +55,7 @@ class ModbusDevice:
         self.delay_fn = None   # optional: (device, request) -> delay
         self.silent = False
         self.fragment_at = None
+        self.drop_at = set()
         self.kern = None
         self.connects = []
         self.sent = []
@@ -102,6 +103,8 @@ class ModbusDevice:
         self.log.append(rq)
         if rq['unit'] != self.unit or self.silent:
             return
+        if len(self.log) - 1 in self.drop_at:
+            return                      # transient loss of exactly this request (fault injection by request index)
         pdu = self.pdu(rq)
         if sock.kind == 'tcp':
             f = wire.mbap(struct.pack('>H', rq['tx']), rq['unit'], pdu)
